@@ -86,6 +86,9 @@ func edgeKinds(c *ctypes.Carrier, x any) (firstTok, lastTok bool) {
 	return seq[0], seq[len(seq)-1]
 }
 
+// nestedMaxLen: inputs up to this length get the nested-parser pass.
+const nestedMaxLen = 4
+
 func c16Explore(bn, bb *px.Built, rn, rb *px.Runner, fam string, idx int64, prm c16Params, st *mc.Stats, only []int) []mc.Violation {
 	g := bn.G
 	var out []mc.Violation
@@ -257,6 +260,38 @@ func c16Explore(bn, bb *px.Built, rn, rb *px.Runner, fam string, idx int64, prm 
 			if a, b := sig(ref.Events), sig(o.Events); o.OK != ref.OK || !reflect.DeepEqual(a, b) {
 				report("result-dependent-call", w, fmt.Sprintf("with actions returning a nil interface value (mode %d) the reductions / _onBounds calls are %v (parse()=%v); with non-nil results they are %v (parse()=%v)", mode, b, o.OK, a, ref.OK))
 				return
+			}
+		}
+		// Parser values are independent: with the action of the k-th reduction
+		// parsing the same input with a parser value of its own, both parses make
+		// the reductions and _onBounds calls the parse makes alone.
+		if len(w) <= nestedMaxLen {
+			nred := 0
+			for _, e := range ref.Events {
+				if e.Kind == ctypes.EvReduce {
+					nred++
+				}
+			}
+			want := sig(ref.Events)
+			for k := 0; k < nred && k < 8; k++ {
+				o, ran, innerOK, innerEvs := rb.RunNested(w, k, w)
+				st.Evaluations++
+				st.Add("nested_parses", 1)
+				if o.Panic != "" {
+					report("parser-panic", w, fmt.Sprintf("with the action of reduction #%d parsing the same input with a second parser value: %s", k, o.Panic))
+					return
+				}
+				if o.Hang != "" || o.Incon || !ran {
+					continue
+				}
+				if got := sig(o.Events); o.OK != ref.OK || !reflect.DeepEqual(got, want) {
+					report("nested-parser-interferes", w, fmt.Sprintf("with the action of reduction #%d parsing the same input with a second parser value, the outer parse's reductions / _onBounds calls are %v (parse()=%v); alone they are %v (parse()=%v)", k, got, o.OK, want, ref.OK))
+					return
+				}
+				if got := sig(innerEvs); innerOK != ref.OK || !reflect.DeepEqual(got, want) {
+					report("nested-parser-interferes", w, fmt.Sprintf("with the action of reduction #%d parsing the same input with a second parser value, the inner parse's reductions / _onBounds calls are %v (parse()=%v); alone they are %v (parse()=%v)", k, got, innerOK, want, ref.OK))
+					return
+				}
 			}
 		}
 		// .. nor may the *type* of a result: an action is free to return a Token it
